@@ -34,7 +34,7 @@ RULE = (
     "reached its comparison; for addresses additionally counted whether the child keys sort differently from the parent xpubs"
 )
 ASSUMPTIONS = [
-    "the '#' separator is neither body nor checksum and is not substituted (its loss silently drops the checksum: observed, not asserted)",
+    "the '#' separator is substituted as well (every other character in its place leaves a body with trailing garbage, which must be refused)",
     "the change branch is account_index + 1 (the library's convention named in the property anchors); account_index = 2^31-1 has no change branch (both sides refuse)",
     "descriptor text order = records sorted by their normalised (xpub/tpub version) parent key string; ties (same xpub twice) keep supply order and are only observed",
     "get_address(sort_keys=False), m > n passed to the constructor and non-canonical spellings accepted by parse are outside the statement: counted as observed:*",
@@ -57,7 +57,7 @@ GATES = {
     "sorting-matters": ["sort:child-order-differs-from-parent-order", "sort:child-order-same-as-parent-order", "sort:supplied-order-differs-from-text-order", "perm:all-permutations", "perm:address-on-permuted"],
     "shared-fingerprint": ["class:records-share-fingerprint"],
     "roundtrip": ["parse:canonical-accepted", "init:with-correct-checksum"],
-    "negative-classes": ["subst:" + r for r in REGIONS] + ["parse:tagged-substitution", "neg:wrong-checksum-parse", "neg:wrong-checksum-init", "neg:checksum-of-other-descriptor"],
+    "negative-classes": ["subst:" + r for r in REGIONS] + ["subst:separator"] + ["parse:tagged-substitution", "neg:wrong-checksum-parse", "neg:wrong-checksum-init", "neg:checksum-of-other-descriptor"],
     "exhaustive-substitution": {"quick": [], "thorough": ["subst:exhaustive-descriptor"]},
 }
 
@@ -649,6 +649,25 @@ def run_shard(desc, ctx):
     for j, (d, m, records) in enumerate(small[:3]):
         other = small[(j + 1) % len(small)][0] if len(small) > 1 else None
         wrong_checksums(ctx, rng2, d, other, m, records, p["wrong_chk"])
+    # the '#' between body and checksum replaced by every other character: what is left is a body followed by nine
+    # characters of garbage, which is not a descriptor (a reader that drops the tail verifies nothing)
+    from buidl.descriptor import P2WSHSortedMulti as _SM
+
+    for d, m, records in small[:2]:
+        text = str(d)
+        pos = text.rfind("#")
+        for ch in te.DESCRIPTOR_CHARSET if hasattr(te, "DESCRIPTOR_CHARSET") else [chr(c) for c in range(32, 127)]:
+            if ch == "#":
+                continue
+            s = text[:pos] + ch + text[pos + 1 :]
+            o = _try(_SM.parse, s)
+            ctx.monitor("driver.separator-substitution")
+            ctx.count("subst:separator")
+            ctx.case({"op": "parse", "s": s})
+            if o[0] == "ok":
+                ctx.violation("parse-accepts-altered-character:separator", f"'#' replaced by {ch!r} was accepted", {"op": "parse", "s": s})
+            else:
+                ctx.rejected_by_exception += 1
     one = [b for b in small if len(b[2]) == 1]
     if p["exhaustive"] and one:
         substitutions(ctx, rng2, str(one[0][0]))
